@@ -6,6 +6,12 @@
 int run_lin(const vf::Args&);
 int run_scan(const vf::Args&);
 int run_phantom(const vf::Args&);
+int run_gc(const vf::Args&);
+int run_struct(const vf::Args&);
+int run_ddl(const vf::Args&);
+int run_value(const vf::Args&);
+int run_leak(const vf::Args&);
+int run_cycle(const vf::Args&);
 
 int main(int argc, char** argv) {
     google::InitGoogleLogging(argv[0]);
@@ -17,6 +23,12 @@ int main(int argc, char** argv) {
     if (mode == "lin") { return run_lin(args); }
     if (mode == "scan") { return run_scan(args); }
     if (mode == "phantom") { return run_phantom(args); }
+    if (mode == "gc") { return run_gc(args); }
+    if (mode == "struct") { return run_struct(args); }
+    if (mode == "ddl") { return run_ddl(args); }
+    if (mode == "value") { return run_value(args); }
+    if (mode == "leak") { return run_leak(args); }
+    if (mode == "cycle") { return run_cycle(args); }
     fprintf(stderr, "unknown --mode %s\n", mode.c_str());
     return 2;
 }
